@@ -160,6 +160,54 @@ theorem send_delivers_file (behs : List Beh) (ids : List Nat) (content : List By
     simp [fileMsgs, Function.comp_def]
   rw [this, toChunks_flatten]
 
+
+/-! ### several files on one stream -/
+
+/-- number of different files (destinations) among the messages addressed to target `i` -/
+def filesFor (i : Nat) (stream : List (List Nat × Msg)) : Nat :=
+  ((stream.filter fun p => p.1.contains i).map fun p => p.2.md.dst).eraseDups.length
+
+/-- full statement for a streaming call that carries several files with their own target lists:
+exactly one result per target **and file** -/
+def PropMultiFile : Prop :=
+  ∀ (behs : List Beh) (stream : List (List Nat × Msg)) (s : State),
+    Reach behs (initStateM behs.length stream) s → final s = true →
+    ∀ i t, s.ts[i]? = some t → t.results.length = filesFor i stream
+
+/-- files for *different* targets on one stream are each delivered to their own targets with their own
+arguments (two files, the first listed twice for its target) -/
+example : let A : CopyArgs := ⟨"/tmp/a", 3, 420, 0, 0⟩
+    let B : CopyArgs := ⟨"/tmp/b", 2, 384, 1, 1⟩
+    let stream : List (List Nat × Msg) := [([0, 0], ⟨A, [1, 2]⟩), ([0, 0], ⟨A, [3]⟩), ([1], ⟨B, [7, 8]⟩)]
+    let behs : List Beh := [⟨false, none, false⟩, ⟨false, none, false⟩]
+    let s := run behs 200 (initStateM 2 stream)
+    final s = true ∧ s.ts.map (·.got) = [[1, 2, 3], [7, 8]] ∧ s.ts.map (·.args) = [some A, some B] ∧
+      s.ts.map (·.results) = [[false], [false]] := by
+  decide
+
+def cexBehs : List Beh := [⟨false, none, false⟩]
+def cexStream : List (List Nat × Msg) :=
+  [([0], ⟨⟨"/tmp/a", 2, 420, 0, 0⟩, [1, 2]⟩), ([0], ⟨⟨"/tmp/b", 1, 420, 0, 0⟩, [9]⟩)]
+def cexFinal : State := run cexBehs 100 (initStateM cexBehs.length cexStream)
+
+/-- **A second file for the same target on one stream is dropped (finding D21d).**  A sender serves
+one file: when a message with another destination arrives it leaves its loop and drains the buffer,
+so the second file is neither delivered nor reported — the call still finishes. -/
+theorem second_file_same_target_counterexample : ¬ PropMultiFile := by
+  intro h
+  have hr := run_reach cexBehs 100 (initStateM cexBehs.length cexStream)
+  have hf : final cexFinal = true := by decide
+  have hres : (cexFinal.ts[0]?).map (·.results.length) = some 1 := by decide
+  have hfiles : filesFor 0 cexStream = 2 := by decide
+  cases ht : cexFinal.ts[0]? with
+  | none => rw [ht] at hres; cases hres
+  | some t =>
+    have := h cexBehs cexStream cexFinal hr hf 0 t ht
+    rw [ht] at hres
+    simp only [Option.map_some, Option.some.injEq] at hres
+    rw [hres, hfiles] at this
+    cases this
+
 /-- non-trivial instance: target 0 reads everything and is listed twice, target 1 is missing,
 target 2's engine rejects the copy at once; 14 chunks (more than the buffer of 10 plus the one in
 flight) -/
